@@ -50,10 +50,10 @@ type Scenario struct {
 	// RedirectLoop: from the end of the behaviour list on, every DESCRIBE is answered
 	// with a redirect to the same URL (an endless redirect chain).
 	RedirectLoop bool `json:"redirect_loop,omitempty"`
-	ReadMS     int           `json:"read_ms"`
-	WriteMS    int           `json:"write_ms"`
-	PortInUse  int           `json:"port_in_use"` // number of client UDP ports that are busy
-	ExtraCalls int           `json:"extra_calls"` // API calls issued after the main script
+	ReadMS       int  `json:"read_ms"`
+	WriteMS      int  `json:"write_ms"`
+	PortInUse    int  `json:"port_in_use"` // number of client UDP ports that are busy
+	ExtraCalls   int  `json:"extra_calls"` // API calls issued after the main script
 	// Yields: yield sites of the client's shutdown / writer paths at which the scheduler may hold
 	// the goroutine (simulated scheduling delay), so that server bytes can arrive in between.
 	Yields map[string]core.YieldSpec `json:"yields,omitempty"`
